@@ -114,6 +114,7 @@ def run(repo, rep, tier):
             rep.violation("R-SIB", "%s.%s.geocentric_position" % (p, p), "differs", "reduction differs from its siblings")
     pluto(repo, rep)
     minor(repo, rep)
+    minor_time_symmetry(repo, rep)
     fam = [(p, p + ".geocentric_position") for p in PLANETS] + [("Pluto", "Pluto.geocentric_position"), ("Pluto", "Pluto.geometric_heliocentric_position"),
            ("Minor", "Minor.geocentric_position"), ("Minor", "Minor.heliocentric_ecliptical_position"), ("Minor", "Minor._near_parabolic"), ("Minor", "Minor.set")]
     timearg_scan(repo, rep, fam)
@@ -151,6 +152,79 @@ def pluto(repo, rep):
         rep.ok("R-DEP", site, "Pluto at epoch - 0.0057755183*distance, Sun vector at the query epoch; ra/dec depend on the shifted position")
     else:
         rep.violation("R-DEP", site, "light-time", "Pluto's direction is not built from its position one light time earlier and the Sun vector at the query epoch")
+
+
+def _definite(v, r, why):
+    """a definite asymmetry: the anomaly is even / the radius odd, or an even and an odd quantity were added and
+    the sum reaches the result; anything the analysis merely does not understand is reported as inconclusive"""
+    return v.p == "E" or r.p == "O" or "sum of an even and an odd quantity" in str(why)
+
+
+def minor_time_symmetry(repo, rep):
+    """R-PARITY: two-body motion is symmetric about perihelion: v(-t) = -v(t), r(-t) = r(t).  The Kepler path
+    (heliocentric_ecliptical_position, and geocentric_position for e < 0.98) has this symmetry by construction
+    of kepler_equation; the near-parabolic and parabolic solvers must have it too, otherwise the geocentric
+    direction cannot agree with the library's own heliocentric position on both sides of perihelion."""
+    import ast
+    from .. import parity
+    from ..frontend import body_without_docstring, norm_text
+    rep.rule("R-PARITY", "parity analysis (abstract interpretation over {zero, even, odd, unknown} with sign transfer, peeled loops): "
+                         "true anomaly odd and radius even in the time from perihelion, every branch and loop test even")
+    n = 0
+    # ---- the near-parabolic solver
+    q = "Minor._near_parabolic"
+    fn = repo.func("Minor", q)
+    tname = fn.args.args[1].arg
+    res, _ = parity.analyse(body_without_docstring(fn), odd_names=[tname])
+    ret = parity.summarise_returns(res)
+    site = "Minor." + q
+    if ret is None or len(ret) != 2:
+        rep.violation("R-PARITY", site, "shape", "does not return (true anomaly, radius) on every path")
+    else:
+        n += 1
+        v, r = ret
+        if v.p in ("O", "Z") and r.p in ("E",) and not res.bad_conds:
+            rep.ok("R-PARITY", site, "v(-t) = -v(t) (mod 360), r(-t) = r(t): %d statements, %d loops, %d sign transfer(s), every test even"
+                   % (res.stmts, res.loops, res.sign_transfers), obligation=True)
+        else:
+            why = v.why if v.p == "T" else r.why if r.p == "T" else res.bad_conds[0][2] if res.bad_conds else "parities (%s, %s)" % (v.p, r.p)
+            if _definite(v, r, why):
+                rep.violation("R-PARITY", site, "asymmetric:perihelion",
+                              "the near-parabolic solver is not symmetric about perihelion (true anomaly %s, radius %s under t -> -t): %s"
+                              % (v.p, r.p, why), obligation=True)
+            else:
+                rep.inconcl("R-PARITY", site, "symmetry about perihelion not established: " + str(why)[:200])
+    # ---- the parabolic blocks of geocentric_position
+    q = "Minor.geocentric_position"
+    fn = repo.func("Minor", q)
+    blocks = []
+    for node in ast.walk(fn):
+        if isinstance(node, ast.If) and any(isinstance(x, ast.While) for b in node.body for x in ast.walk(b)) \
+                and "1.0" in norm_text(node.test) and "abs(" in norm_text(node.test):
+            blocks.append(node)
+    for k, node in enumerate(sorted(blocks, key=lambda x: x.lineno)):
+        site = "Minor.%s:parabolic#%d" % (q, k + 1)
+        try:
+            res, env = parity.analyse(node.body, odd_names=["t_peri"], odd_exprs=["epoch - self._t", "epoch - t"])
+        except NotImplementedError as e:
+            rep.inconcl("R-PARITY", site, str(e))
+            continue
+        v, r = (env or {}).get("v"), (env or {}).get("rr")
+        if v is None or r is None:
+            rep.inconcl("R-PARITY", site, "the block does not assign v and rr")
+            continue
+        n += 1
+        if v.p == "O" and r.p == "E" and not res.bad_conds:
+            rep.ok("R-PARITY", site, "parabolic branch: v odd, r even in the time from perihelion", obligation=True)
+        else:
+            why = v.why if v.p == "T" else r.why if r.p == "T" else res.bad_conds[0][2] if res.bad_conds else "parities (%s, %s)" % (v.p, r.p)
+            if _definite(v, r, why):
+                rep.violation("R-PARITY", "Minor." + q, "asymmetric:parabolic#%d" % (k + 1),
+                              "the parabolic branch is not symmetric about perihelion (true anomaly %s, radius %s under t -> -t): %s"
+                              % (v.p, r.p, why), obligation=True)
+            else:
+                rep.inconcl("R-PARITY", site, "symmetry about perihelion not established: " + str(why)[:200])
+    rep.floor("time-symmetry instances (near-parabolic solver + parabolic blocks)", n, 3)
 
 
 def minor(repo, rep):
